@@ -70,6 +70,11 @@ def run(ctx):
     part2 = os.path.join(d2, "c20redis.part")
     routerfam.partition_by_name(os.path.join(d2, "c20redis.ndjson"), part2)
     routerfam.validate(ctx, part2, only=["Inv_C04_", "Inv_C03_Header", "Inv_C03_Decodable", "Inv_C07_StoreOwnKey", "Unconsumable"], require_events=3000, timeout=3000)
+    # recycled per-connection state: clients that hang up with a query in flight, new connections right behind them -
+    # a late completion for a connection that is gone does not touch the one that took its place
+    drv_plain = vf.build_driver("routerdrv")
+    tg, _ = routerfam.run_mode(ctx, drv_plain, "c20gone")
+    routerfam.validate(ctx, tg, only=["Inv_C03_Answered", "Inv_C03_Header", "Inv_C03_AtMostOne", "Inv_C04_", "Unconsumable"], require_events=200)
     # the codec's error paths: mutated wire images (length fields that lie, truncations, RDLENGTH off by one in
     # every record type) decoded with the pool hook on - a buffer released twice there is two owners later
     import wirefam
